@@ -2,9 +2,9 @@ package logger
 
 import (
 	"bytes"
+	"encoding/json"
 	"fmt"
 	"os"
-	"strconv"
 	"time"
 )
 
@@ -35,7 +35,8 @@ func (d *destinationFile) log(t time.Time, level Level, format string, args ...a
 		d.buf.WriteString(`","level":"`)
 		writeLevel(&d.buf, level, false)
 		d.buf.WriteString(`","message":`)
-		d.buf.WriteString(strconv.Quote(fmt.Sprintf(format, args...)))
+		msg, _ := json.Marshal(fmt.Sprintf(format, args...))
+		d.buf.Write(msg)
 		d.buf.WriteString(`}`)
 		d.buf.WriteByte('\n')
 	} else {
